@@ -134,12 +134,10 @@ ezc3d::DataNS::Frame &ezc3d::DataNS::Data::frame_nonConst(size_t idx)
 void ezc3d::DataNS::Data::frame(const ezc3d::DataNS::Frame &frame, size_t idx)
 {
     if (idx == SIZE_MAX)
-        _frames.push_back(frame);
-    else {
-        if (idx >= _frames.size())
-            _frames.resize(idx+1);
-        _frames[idx].add(frame);
-    }
+        idx = _frames.size(); // append a copy so the stored frame does not share its points and analogs with the caller
+    if (idx >= _frames.size())
+        _frames.resize(idx+1);
+    _frames[idx].add(frame);
 }
 
 const std::vector<ezc3d::DataNS::Frame> &ezc3d::DataNS::Data::frames() const
